@@ -1645,43 +1645,85 @@ func checkCSVUniqueNames(c *core.Ctx, rule string) {
 		c.Unknown(rule, "datasources/csv.Creator/unique column names", 0, "anchor not found")
 		return
 	}
-	info := fn.Info()
+	p := c.Prog
 	unique := false
-	ast.Inspect(fn.Decl.Body, func(n ast.Node) bool {
-		rs, ok := n.(*ast.RangeStmt)
-		if !ok || core.ExprStr(rs.X) != "fieldNames" || rs.Value == nil {
-			return true
-		}
-		v := core.ExprStr(rs.Value)
-		rejects, records := "", ""
-		for _, st := range rs.Body.List {
-			switch st := st.(type) {
-			case *ast.IfStmt:
-				ix, ok := st.Cond.(*ast.IndexExpr)
-				if !ok || core.ExprStr(ix.Index) != v || st.Else != nil || len(st.Body.List) == 0 {
-					continue
-				}
-				if _, isMap := info.TypeOf(ix.X).Underlying().(*types.Map); !isMap {
-					continue
-				}
-				if ret, ok := st.Body.List[len(st.Body.List)-1].(*ast.ReturnStmt); ok && len(ret.Results) > 0 && core.ExprStr(ret.Results[len(ret.Results)-1]) != "nil" {
-					rejects = core.ExprStr(ix.X)
-				}
-			case *ast.AssignStmt:
-				if len(st.Lhs) == 1 && len(st.Rhs) == 1 && core.ExprStr(st.Rhs[0]) == "true" {
-					if ix, ok := st.Lhs[0].(*ast.IndexExpr); ok && core.ExprStr(ix.Index) == v {
-						records = core.ExprStr(ix.X)
+	// the walk over the header's names: in Creator itself (a repeated name returns an error), or in a helper that is
+	// handed the names and reports the repetition to Creator, which then returns an error
+	for _, bf := range helperClosureBound(p, fn) {
+		bf := bf
+		info := bf.fn.Info()
+		ast.Inspect(bf.fn.Decl.Body, func(n ast.Node) bool {
+			rs, ok := n.(*ast.RangeStmt)
+			if !ok || resolveText(core.ExprStr(rs.X), bf.binds) != "fieldNames" || rs.Value == nil {
+				return true
+			}
+			v := core.ExprStr(rs.Value)
+			rejects, records := "", ""
+			for _, st := range rs.Body.List {
+				switch st := st.(type) {
+				case *ast.IfStmt:
+					ix, ok := st.Cond.(*ast.IndexExpr)
+					if !ok || core.ExprStr(ix.Index) != v || st.Else != nil || len(st.Body.List) == 0 {
+						continue
+					}
+					if _, isMap := info.TypeOf(ix.X).Underlying().(*types.Map); !isMap {
+						continue
+					}
+					ret, ok := st.Body.List[len(st.Body.List)-1].(*ast.ReturnStmt)
+					if !ok || len(ret.Results) == 0 {
+						continue
+					}
+					if bf.fn == fn {
+						if core.ExprStr(ret.Results[len(ret.Results)-1]) != "nil" {
+							rejects = core.ExprStr(ix.X)
+						}
+					} else if creatorRejectsOn(p, fn, bf.fn) {
+						rejects = core.ExprStr(ix.X)
+					}
+				case *ast.AssignStmt:
+					if len(st.Lhs) == 1 && len(st.Rhs) == 1 && core.ExprStr(st.Rhs[0]) == "true" {
+						if ix, ok := st.Lhs[0].(*ast.IndexExpr); ok && core.ExprStr(ix.Index) == v {
+							records = core.ExprStr(ix.X)
+						}
 					}
 				}
 			}
+			if rejects != "" && rejects == records {
+				unique = true
+			}
+			return true
+		})
+	}
+	c.Decide(unique, rule, "datasources/csv.Creator/unique column names", fn.Decl.Pos(), 1, "a header naming a column twice is rejected",
+		"the reader selects file columns by name and fills slot i from the i-th selected column: with a repeated header name more columns are selected than the pruned schema has fields (index out of range), so the creator must reject a header that names a column twice")
+}
+
+// creatorRejectsOn: root returns a non-nil error under a test of what helper reported (`if x, found := helper(…);
+// found { return …, err }`, or the result assigned first and tested next).
+func creatorRejectsOn(p *core.Program, root, helper *core.FuncRef) bool {
+	info := root.Info()
+	found := false
+	ast.Inspect(root.Decl.Body, func(n ast.Node) bool {
+		is, ok := n.(*ast.IfStmt)
+		if !ok || len(is.Body.List) == 0 {
+			return true
 		}
-		if rejects != "" && rejects == records {
-			unique = true
+		calls := false
+		inspectAll([]ast.Node{is.Init, is.Cond}, func(m ast.Node) bool {
+			if call, ok := m.(*ast.CallExpr); ok && core.Callee(info, call) == types.Object(helper.Obj) {
+				calls = true
+			}
+			return true
+		})
+		if !calls {
+			return true
+		}
+		if ret, ok := is.Body.List[len(is.Body.List)-1].(*ast.ReturnStmt); ok && len(ret.Results) > 0 && core.ExprStr(ret.Results[len(ret.Results)-1]) != "nil" {
+			found = true
 		}
 		return true
 	})
-	c.Decide(unique, rule, "datasources/csv.Creator/unique column names", fn.Decl.Pos(), 1, "a header naming a column twice is rejected",
-		"the reader selects file columns by name and fills slot i from the i-th selected column: with a repeated header name more columns are selected than the pruned schema has fields (index out of range), so the creator must reject a header that names a column twice")
+	return found
 }
 
 // inexactFloatParsers: library routines that do not return the float64 nearest to the decimal text. fastfloat.Parse
